@@ -914,6 +914,18 @@ func (x *Exec) specCall(env *SpecEnv, c ECall) SpecVal {
 		v := x.spec(env, c.Args[0])
 		return x.sliceToSeq(env.st, v)
 	}
+	// pure Go function under contract, used as a spec function
+	if pc, pfn := x.findPure(env, c.Fn); pc != nil {
+		var args []Term
+		for k, a := range c.Args {
+			v := x.spec(env, a)
+			if v.Lit && k < len(pfn.Params) {
+				v.T = x.intLit(v.N, x.sortOf(pfn.Params[k].Type()))
+			}
+			args = append(args, v.T)
+		}
+		return SpecVal{T: x.pureTerm(pfn, args), Ty: pfn.Signature.Results().At(0).Type()}
+	}
 	// user predicate / spec function
 	if pd := x.findPred(env, c.Fn); pd != nil {
 		if env.depth > 24 {
@@ -951,6 +963,41 @@ func (x *Exec) specCall(env *SpecEnv, c ECall) SpecVal {
 	}
 	unsupported("unknown contract function %s", c.Fn)
 	return SpecVal{}
+}
+
+// findPure: a function of the current package whose contract says "pure".
+func (x *Exec) findPure(env *SpecEnv, name string) (*FuncContract, *ssa.Function) {
+	if env.cf == nil {
+		return nil, nil
+	}
+	for key, c := range env.cf.Funcs {
+		if !c.Pure {
+			continue
+		}
+		short := key
+		if i := strings.LastIndex(key, "."); i >= 0 {
+			short = key[i+1:]
+		}
+		if short == name {
+			if fn, ok := x.P.Funcs[env.cf.Pkg+"."+key]; ok && fn.Signature.Results().Len() == 1 {
+				return c, fn
+			}
+		}
+	}
+	return nil, nil
+}
+
+// pureTerm is the value a pure function returns for these arguments: an
+// uninterpreted function of the arguments (the parts of the heap it reads are
+// assumed immutable after construction; listed as an assumption).
+func (x *Exec) pureTerm(fn *ssa.Function, args []Term) Term {
+	var sorts []Sort
+	for _, a := range args {
+		sorts = append(sorts, a.Sort)
+	}
+	ret := x.sortOf(fn.Signature.Results().At(0).Type())
+	x.usedTrusted["pure function "+fullKey(fn)+" used as a spec function: result depends only on its arguments and on fields that are immutable after construction"] = true
+	return x.d.Fun("pf!"+fullKey(fn), sorts, ret)(args...)
 }
 
 type ufunDecl struct {
@@ -1045,7 +1092,7 @@ func (x *Exec) clauseProps(c *Clause, def []string) []string {
 
 func (x *Exec) applyContract(cfg *Config, f *Frame, fn *ssa.Function, c *FuncContract, args []Val, binds []Val, dest ssa.Value, isDefer bool, pos token.Pos) ([]*Config, bool) {
 	x.calledContracts[c.Pkg+"."+c.Key] = true
-	if c.Mode != x.mode && (c.Mode == "bv" || x.mode == "bv") {
+	if c.Mode != x.mode && c.Mode != "any" && (c.Mode == "bv" || x.mode == "bv") {
 		unsupported("call from %s-mode function into %s-mode contract %s", x.mode, c.Mode, c.Key)
 	}
 	env := x.calleeEnv(cfg, fn, c, args, binds)
@@ -1190,6 +1237,20 @@ func (x *Exec) applyContractTail(cfg *Config, f *Frame, fn *ssa.Function, c *Fun
 	}
 	env.st = cfg.st
 	env.results = x.resultsToSpec(cfg.st, res, sig, dest)
+	if c.Pure && fn != nil && fn.Signature.Results().Len() == 1 {
+		var ats []Term
+		ok := true
+		for _, a := range args {
+			if tv, isTV := a.(TV); isTV {
+				ats = append(ats, tv.T)
+			} else {
+				ok = false
+			}
+		}
+		if rt, isTV := res.(TV); ok && isTV {
+			cfg.st.assume(Eq(rt.T, x.pureTerm(fn, ats)))
+		}
+	}
 	for _, e := range c.Ensures {
 		cfg.st.assume(x.specBool(env, e.E))
 	}
@@ -1383,6 +1444,18 @@ func (x *Exec) havocModifies(cfg *Config, env *SpecEnv, c *FuncContract) {
 			whole[t.arr] = true
 		}
 	}
+	if x.frameReady && len(cfg.loops) > 0 && c.Key != "" && !strings.HasPrefix(c.Key, "lockhavoc") && c.Key != "\x00lock" {
+		for _, t := range targets {
+			if x.frameWhole[t.arr] || strings.HasPrefix(t.arr, "$") {
+				continue
+			}
+			if t.loc == nil {
+				x.oblige(cfg, "call-in-frame", c.Key+" modifies all of "+t.arr, False, nil, token.NoPos)
+				continue
+			}
+			x.oblige(cfg, "call-in-frame", c.Key+": "+t.arr, x.mayWrite(t.arr, *t.loc), nil, token.NoPos)
+		}
+	}
 	done := map[string]bool{}
 	for _, t := range targets {
 		cur := x.heapGet(st, t.arr, t.sort)
@@ -1418,6 +1491,21 @@ func (x *Exec) exitChecks(cfg *Config, f *Frame, res []Val) {
 	sig := x.fn.Signature
 	for i, r := range res {
 		env.results = append(env.results, x.valToSpec(cfg.st, r, sig.Results().At(i).Type()))
+	}
+	if x.c.Pure && len(res) == 1 {
+		// definition of the spec function: what the body returns
+		var ats []Term
+		ok := true
+		for _, p := range x.fn.Params {
+			if tv, isTV := cfg.frames[0].regs[p].(TV); isTV {
+				ats = append(ats, tv.T)
+			} else {
+				ok = false
+			}
+		}
+		if rt, isTV := res[0].(TV); ok && isTV {
+			cfg.st.assume(Eq(rt.T, x.pureTerm(x.fn, ats)))
+		}
 	}
 	for _, gs := range x.c.GhostSets {
 		x.applyGhostSet(cfg, env, gs)
